@@ -158,7 +158,9 @@ func (c *Ctx) newSharedFlow(nf *nilFlow) *sharedFlow {
 							mark(x, w)
 						}
 					case *ssa.Slice:
-						if w, ok := sf.derived[x.X]; ok {
+						if g, ok := x.X.(*ssa.Global); ok && isRepoPkg(g.Pkg.Pkg) {
+							mark(x, shortObj(g.Object())) // a slice of a package-level array shares its storage
+						} else if w, ok := sf.derived[x.X]; ok {
 							mark(x, w)
 						}
 					case *ssa.Phi:
@@ -338,6 +340,13 @@ func (sf *sharedFlow) writes() []sharedWrite {
 									out = append(out, sharedWrite{f, x.Pos(), w, bi.Name() + "() on a value derived from the package variable"})
 								}
 							}
+						case "append":
+							// append writes into the spare capacity of its first argument's backing array
+							if len(com.Args) > 1 {
+								if w, ok := sf.derived[com.Args[0]]; ok {
+									out = append(out, sharedWrite{f, x.Pos(), w, "append() to a slice derived from the package variable: the elements land in its backing array when the capacity allows"})
+								}
+							}
 						}
 						continue
 					}
@@ -370,11 +379,25 @@ var frozenSharedWriters = map[string]string{
 	"common.GridSampler_SetGridSampler": "the documented global configuration hook: replaces the sampler for the whole process; not reachable from any Encode/Decode entry point (checked as its own obligation)",
 }
 
-func checkC18(c *Ctx, r *Report) {
-	r.Rule("W-STORE", "package-level state (every package variable and everything reachable from it) is written only by functions reachable solely from package initialisers; one obligation per package variable, listing its writers", 60)
-	r.Rule("W-HOOK", "the one allowed post-init writer, GridSampler_SetGridSampler, is not reachable from any reader/writer entry point", 1)
-	r.Rule("W-NOGO", "the library starts no goroutine and uses no sync/atomic/unsafe (asserted over all non-test files), so the only sharing between independent instances is package-level state", 1)
-	r.Rule("W-FRESH", "the per-call objects named in the property's anchors are allocated inside the call: generateECBytes calls NewReedSolomonEncoder, EncodeHighLevel builds its six mode encoders, decoders are built by constructors; none is loaded from a package variable", 3)
+// checkSharedStores is rule W-STORE, over all package variables or (pkgPrefix non-empty) those of the packages whose
+// import path, relative to the module, starts with one of the comma-separated prefixes.
+func checkSharedStores(c *Ctx, r *Report, pkgPrefix string, min int) *nilFlow {
+	what := "every package variable"
+	if pkgPrefix != "" {
+		what = "every package variable of " + pkgPrefix
+	}
+	r.Rule("W-STORE", "package-level state ("+what+" and everything reachable from it) is written only by functions reachable solely from package initialisers - a store through an address derived from the variable, a map update, copy / clear / delete, an append into the spare capacity of a slice of it, a hand-over to an external function that may write; one obligation per package variable, listing its writers", min)
+	wanted := func(key string) bool {
+		if pkgPrefix == "" {
+			return true
+		}
+		for _, pre := range strings.Split(pkgPrefix, ",") {
+			if strings.HasPrefix(key, pre+".") || strings.HasPrefix(key, pre+"/") {
+				return true
+			}
+		}
+		return false
+	}
 	nf := c.newNilFlow()
 	sf := c.newSharedFlow(nf)
 	ws := sf.writes()
@@ -391,7 +414,9 @@ func checkC18(c *Ctx, r *Report) {
 		sp := c.SSA[p.PkgPath]
 		for _, m := range sp.Members {
 			if g, ok := m.(*ssa.Global); ok && g.Object() != nil && !strings.HasPrefix(g.Name(), "init$") {
-				globals = append(globals, gv{shortObj(g.Object()), g.Pos()})
+				if wanted(shortObj(g.Object())) {
+					globals = append(globals, gv{shortObj(g.Object()), g.Pos()})
+				}
 			}
 		}
 	}
@@ -417,7 +442,7 @@ func checkC18(c *Ctx, r *Report) {
 	}
 	byGlobal := map[string][]sharedWrite{}
 	for _, w := range ws {
-		if emptySlices[w.Witness] && strings.HasPrefix(w.What, "store through an address") {
+		if emptySlices[w.Witness] && (strings.HasPrefix(w.What, "store through an address") || strings.HasPrefix(w.What, "append()")) {
 			continue
 		}
 		byGlobal[w.Witness] = append(byGlobal[w.Witness], w)
@@ -455,7 +480,7 @@ func checkC18(c *Ctx, r *Report) {
 		known[g.key] = true
 	}
 	for w, list := range byGlobal {
-		if !known[w] {
+		if !known[w] && pkgPrefix == "" {
 			for _, x := range list {
 				if !sf.initOnly[x.Fn] {
 					r.Fail("W-STORE", w, c.pos(x.Pos), "violation", "write to shared state in "+shortFn(x.Fn))
@@ -466,6 +491,15 @@ func checkC18(c *Ctx, r *Report) {
 	r.Extra("writer_sets", writerSets)
 
 	// W-HOOK
+	return nf
+}
+
+func checkC18(c *Ctx, r *Report) {
+	r.Rule("W-HOOK", "the one allowed post-init writer, GridSampler_SetGridSampler, is not reachable from any reader/writer entry point", 1)
+	r.Rule("W-NOGO", "the library starts no goroutine and uses no sync/atomic/unsafe (asserted over all non-test files), so the only sharing between independent instances is package-level state", 1)
+	r.Rule("W-FRESH", "the per-call objects named in the property's anchors are allocated inside the call: generateECBytes calls NewReedSolomonEncoder, EncodeHighLevel builds its six mode encoders, decoders are built by constructors; none is loaded from a package variable", 3)
+	nf := checkSharedStores(c, r, "", 60)
+	checkHintMapsReadOnly(c, r)
 	var roots []*ssa.Function
 	roots = append(roots, nf.entryMethods("", "Reader", "Decode")...)
 	roots = append(roots, nf.entryMethods("", "Writer", "Encode")...)
@@ -530,4 +564,123 @@ func checkC18(c *Ctx, r *Report) {
 	fresh("datamatrix/encoder", "EncodeHighLevel", "datamatrix/encoder", "NewASCIIEncoder", "NewC40Encoder", "NewTextEncoder", "NewX12Encoder", "NewEdifactEncoder", "NewBase256Encoder", "NewEncoderContext")
 	fresh("qrcode/decoder", "NewDecoder", "common/reedsolomon", "NewReedSolomonDecoder")
 	r.Note("decides 'no write to shared state after init' (which implies freedom from data races between independent instances under the Go memory model: package initialisation happens before main); does not decide that concurrent results equal sequential results beyond that")
+}
+
+// W-HINTS: the hints a caller passes in are read, never written
+func checkHintMapsReadOnly(c *Ctx, r *Report) {
+	r.Rule("W-HINTS", "no function of the module stores into or deletes from a hints map it received as a parameter (map[DecodeHintType]interface{} / map[EncodeHintType]interface{}), directly or through a callee it hands the map to: two calls that share one hints map - the usual way to configure several readers - do not see each other's changes, and a map being read by one goroutine is not written by another; a reader that needs a modified set of hints builds its own map", 1)
+	isHints := func(t types.Type) bool {
+		m, ok := t.Underlying().(*types.Map)
+		if !ok {
+			return false
+		}
+		n, ok := m.Key().(*types.Named)
+		return ok && (n.Obj().Name() == "DecodeHintType" || n.Obj().Name() == "EncodeHintType")
+	}
+	var fns []*ssa.Function
+	for f := range c.allFuncs {
+		if isRepoPkgFn(f) && f.Blocks != nil {
+			fns = append(fns, f)
+		}
+	}
+	sort.Slice(fns, func(i, j int) bool { return fns[i].String() < fns[j].String() })
+	// origin of a map value inside f: the index of the hints parameter it is, or -1
+	var paramOf func(v ssa.Value, seen map[ssa.Value]bool) int
+	paramOf = func(v ssa.Value, seen map[ssa.Value]bool) int {
+		if seen[v] {
+			return -1
+		}
+		seen[v] = true
+		switch x := v.(type) {
+		case *ssa.Parameter:
+			if isHints(x.Type()) {
+				for i, p := range x.Parent().Params {
+					if p == x {
+						return i
+					}
+				}
+			}
+		case *ssa.Phi:
+			for _, e := range x.Edges {
+				if i := paramOf(e, seen); i >= 0 {
+					return i
+				}
+			}
+		case *ssa.ChangeType:
+			return paramOf(x.X, seen)
+		}
+		return -1
+	}
+	writes := map[*ssa.Function]map[int]string{} // function -> parameter index -> where
+	note := func(f *ssa.Function, i int, where string) bool {
+		if writes[f] == nil {
+			writes[f] = map[int]string{}
+		}
+		if _, has := writes[f][i]; has {
+			return false
+		}
+		writes[f][i] = where
+		return true
+	}
+	nf := c.newNilFlow()
+	for round := 0; round < 10; round++ {
+		changed := false
+		for _, f := range fns {
+			for _, b := range f.Blocks {
+				for _, in := range b.Instrs {
+					switch x := in.(type) {
+					case *ssa.MapUpdate:
+						if i := paramOf(x.Map, map[ssa.Value]bool{}); i >= 0 && note(f, i, c.pos(x.Pos())+" (store)") {
+							changed = true
+						}
+					case *ssa.Call:
+						com := x.Common()
+						if bi, ok := com.Value.(*ssa.Builtin); ok {
+							if (bi.Name() == "delete" || bi.Name() == "clear") && len(com.Args) > 0 {
+								if i := paramOf(com.Args[0], map[ssa.Value]bool{}); i >= 0 && note(f, i, c.pos(x.Pos())+" ("+bi.Name()+")") {
+									changed = true
+								}
+							}
+							continue
+						}
+						for _, g := range nf.callees(x) {
+							w := writes[g]
+							if len(w) == 0 {
+								continue
+							}
+							args := com.Args
+							off := 0
+							if com.IsInvoke() {
+								off = 1
+							}
+							for j, a := range args {
+								if where, has := w[j+off]; has {
+									if i := paramOf(a, map[ssa.Value]bool{}); i >= 0 && note(f, i, c.pos(x.Pos())+" (handed to "+shortFn(g)+", which writes it at "+where+")") {
+										changed = true
+									}
+								}
+							}
+						}
+					}
+				}
+			}
+		}
+		if !changed {
+			break
+		}
+	}
+	key := "hints parameters"
+	r.Analysed(key)
+	var bad []string
+	for _, f := range fns {
+		for i, where := range writes[f] {
+			bad = append(bad, fmt.Sprintf("%s writes its hints parameter %s at %s", shortFn(f), f.Params[i].Name(), where))
+		}
+	}
+	sort.Strings(bad)
+	if len(bad) > 3 {
+		bad = append(bad[:3], fmt.Sprintf("... and %d more", len(bad)-3))
+	}
+	r.Check(len(bad) == 0, "W-HINTS", key, "", strings.Join(bad, "; "))
+	r.Extra("W-HINTS functions scanned", len(fns))
 }
